@@ -263,3 +263,24 @@ def read_attrs(L, oid, n, kind):
             res.append([name.value.decode(errors="replace"), nt.value, cnt.value, b.raw().hex() if r != FAIL else "READFAIL"])
             b.free()
     return res
+
+
+class ChunkDef(ctypes.Structure):
+    """HDF_CHUNK_DEF (a 176-byte union passed BY VALUE to SDsetchunk/GRsetchunk):
+    words 0..31 chunk_lengths; comp variant: word 32 comp_type, 33 model_type, 34.. comp_info (deflate level / skphuff skip size);
+    nbit variant: word 32 start_bit, 33 bit_len, 34 sign_ext, 35 fill_one"""
+    _fields_ = [("w", c_int32 * 44)]
+
+
+HDF_NONE, HDF_CHUNK, HDF_COMP, HDF_NBIT = 0x0, 0x1, 0x3, 0x5
+
+
+def chunkdef(lengths, comp=None, level=6):
+    c = ChunkDef()
+    for i, x in enumerate(lengths):
+        c.w[i] = x
+    if comp is not None:
+        c.w[32] = comp
+        c.w[33] = 0
+        c.w[34] = level
+    return c
